@@ -69,7 +69,7 @@ def invariants(text, stmts):
 
 
 def run_case(case):
-    text = SHAPES[case['shape']](case['depth'])
+    text = SHAPES[case['shape']](case['depth']) + (case.get('tail') or '')
     ep = case['entry']
     opts = case.get('opts') or {}
     out = {'outcome': None, 'detail': '', 'inv': None, 'after': None, 'len': len(text)}
@@ -93,6 +93,12 @@ def run_case(case):
         out['outcome'] = 'ok'
     except SQLParseError:
         out['outcome'] = 'SPE'
+        # a later call made while the error is still being handled (the usual "fall back to plain output" pattern)
+        try:
+            ok = sqlparse.split('select 1; select 2') == ['select 1;', 'select 2'] and sqlparse.format('select  1', strip_whitespace=True) == 'select 1'
+            out['in_handler'] = 'ok' if ok else 'wrong-result'
+        except Exception as e2:
+            out['in_handler'] = 'exc:' + type(e2).__name__
     except RecursionError as e:
         out['outcome'] = 'RecursionError'
         out['detail'] = _where(e)
